@@ -79,6 +79,15 @@ class C03(PureCheck):
         # fixed witnesses of the recorded finding (escape prefix followed by a non-ASCII byte)
         for enc in encs:
             yield {"op": "stream", "k1": [27, 91], "k2": [0xC3, 0xA9] if enc == "utf8" else [0xE9], "enc": enc}
+        # every table sequence through Input.find_key: alone (arrives whole), followed by a letter, by another
+        # escape sequence, and preceded by a letter - in every encoding
+        for enc in encs:
+            for K in tabseqs:
+                for k1, k2 in ((K, b""), (K, b"x"), (K, b"\x1b[A"), (b"a", K)):
+                    key = (k1, k2, enc)
+                    if key not in seen:
+                        seen.add(key)
+                        yield {"op": "stream", "k1": list(k1), "k2": list(k2), "enc": enc}
         for k in range(nstream):
             enc = "utf8" if k % 3 == 0 else encs[k % 3]
             k1 = rng.choice(tabseqs) if rng.random() < 0.8 else rng.choice(chars)
